@@ -456,6 +456,12 @@ impl<'a> VisitMut for Rw<'a> {
                     *t = parse_quote!(Result<(), VErrors>);
                     return;
                 }
+                if p.segments.len() >= 2 && (p.segments[0].ident == "crate" || p.segments[0].ident == "super") {
+                    let l = last.clone();
+                    self.fire("R-PATH.strip");
+                    *t = parse_quote!(#l);
+                    return;
+                }
                 if lname == "ValidationErrors" {
                     self.fire("R-ERR.valerrors");
                     *t = parse_quote!(VErrors);
@@ -789,6 +795,25 @@ impl<'a> VisitMut for Rw<'a> {
                     "ok_or_else" => {
                         self.fire("R-ERR.ok_or_else");
                         replacement = Some(parse_quote!(#recv.ok_or(VErr)));
+                    }
+                    "powi" if args.len() == 1 && ts_str(&args[0]).starts_with("typenum::P") => {
+                        // uom's type-level exponent: typenum::P2::new() -> 2
+                        let t = ts_str(&args[0]);
+                        let n: String = t.trim_start_matches("typenum::P").chars().take_while(|c| c.is_ascii_digit()).collect();
+                        if let Ok(k) = n.parse::<i32>() {
+                            let lit = syn::LitInt::new(&k.to_string(), Span::call_site());
+                            self.fire("R-UNIT.powi");
+                            replacement = Some(parse_quote!(#recv.powi(#lit)));
+                        }
+                    }
+                    "unwrap_or_else" if args.len() == 1 => {
+                        if let Expr::Closure(cl) = &args[0] {
+                            if cl.inputs.is_empty() {
+                                let body = &cl.body;
+                                self.fire("R-OPTMAP.unwrap_or_else");
+                                replacement = Some(parse_quote!(match #recv { Some(__v) => __v, None => #body }));
+                            }
+                        }
                     }
                     "unwrap_or_default" => {
                         self.fire("R-UNIT.unwrap_or_default");
